@@ -10,11 +10,13 @@ package main
 import (
 	"crypto/sha256"
 	"encoding/hex"
+	"encoding/json"
 	"errors"
 	"fmt"
 	"math/big"
 	"os"
 	"sort"
+	"sync"
 
 	btcconfig "github.com/ChainSafe/sygma-relayer/chains/btc/config"
 	btclistener "github.com/ChainSafe/sygma-relayer/chains/btc/listener"
@@ -38,7 +40,7 @@ type Relayer struct {
 }
 
 type Case struct {
-	Type string `json:"type"` // pair | credit | nonce | sess | bexec | sessf | subf | bexecf | retry | conc
+	Type string `json:"type"` // pair | credit | nonce | sess | bexec | sessf | subf | bexecf | retry | conc | sessh | subh | bexech
 	// pair
 	Kind string          `json:"kind,omitempty"`
 	Ival int64           `json:"ival,omitempty"`
@@ -63,6 +65,13 @@ type Case struct {
 	// running number of the look-up)
 	Masks [][]int `json:"masks,omitempty"`
 	BExec []bool  `json:"bexec,omitempty"`
+	// sessf / subf / bexecf (latency.go): one further relayer per entry whose node answers the executed-status
+	// look-ups with scripted latencies: per proposal the completion rank of its look-up
+	Lat [][]int `json:"lat,omitempty"`
+	// sessh (EVM: cap, tg) / subh (Substrate) / bexech (Bitcoin: rids) (hist.go): the deliveries and the
+	// history (indices into them) one long-lived executor object goes through
+	Dels []Delivery `json:"dels,omitempty"`
+	Seq  []int      `json:"seq,omitempty"`
 	// nonce
 	Block  int64  `json:"block,omitempty"`
 	TxHash string `json:"txhash,omitempty"`
@@ -102,6 +111,12 @@ type Obs struct {
 	// sessf / subf: per relayer (0 = fault-free) the sessions it started; bexecf: the groups
 	FRuns  [][]SessObs `json:"fruns,omitempty"`
 	FBRuns [][]BGroup  `json:"fbruns,omitempty"`
+	// sessh / subh / bexech: per delivery what a relayer with a new executor object started; per step of the
+	// history what the long-lived one started
+	HFresh  [][]SessObs `json:"hfresh,omitempty"`
+	HSteps  []HStep     `json:"hsteps,omitempty"`
+	HBFresh [][]BGroup  `json:"hbfresh,omitempty"`
+	HBSteps []HBStep    `json:"hbsteps,omitempty"`
 	// nonce
 	Nonce    uint64 `json:"nonce,omitempty"`
 	Preimage string `json:"preimage,omitempty"`
@@ -275,7 +290,75 @@ func runRelayer(c Case, r *Relayer) *RelObs {
 	return o
 }
 
+// The faulty-relayer / latency / history cases spend their time waiting (scripted latencies, session
+// time-outs of the real coordinator): the generated ones are run by a few workers at the end of Gen - before
+// any case that sets GOMAXPROCS runs - and run() hands out the result (a panic of the real code is re-raised
+// there, so that the case in flight is the one that is reported).
+type future struct {
+	obs Obs
+	pnc interface{}
+}
+
+var prefetched = map[string]*future{}
+
+func waitsMostly(c Case) bool {
+	switch c.Type {
+	case "sessf", "subf", "bexecf", "sessh", "subh", "bexech":
+		return true
+	}
+	return false
+}
+
+func caseKey(c Case) string {
+	b, err := json.Marshal(c)
+	if err != nil {
+		panic(err)
+	}
+	return string(b)
+}
+
+func prefetch(cases []Case) {
+	sem := make(chan struct{}, 8)
+	var wg sync.WaitGroup
+	for _, c := range cases {
+		if !waitsMostly(c) {
+			continue
+		}
+		k := caseKey(c)
+		if prefetched[k] != nil {
+			continue
+		}
+		f := &future{}
+		prefetched[k] = f
+		wg.Add(1)
+		go func(c Case) {
+			defer wg.Done()
+			sem <- struct{}{}
+			defer func() { <-sem }()
+			defer func() {
+				if p := recover(); p != nil {
+					f.pnc = p
+				}
+			}()
+			f.obs = runNow(c)
+		}(c)
+	}
+	wg.Wait()
+}
+
 func run(c Case) Obs {
+	if waitsMostly(c) {
+		if f := prefetched[caseKey(c)]; f != nil {
+			if f.pnc != nil {
+				panic(f.pnc)
+			}
+			return f.obs
+		}
+	}
+	return runNow(c)
+}
+
+func runNow(c Case) Obs {
 	switch c.Type {
 	case "credit":
 		return runCredit(c)
@@ -295,6 +378,10 @@ func run(c Case) Obs {
 		return runRetry(c)
 	case "conc":
 		return runConc(c)
+	case "sessh", "subh":
+		return runSessH(c)
+	case "bexech":
+		return runBexecH(c)
 	}
 	return Obs{A: runRelayer(c, c.A), B: runRelayer(c, c.B)}
 }
@@ -443,11 +530,19 @@ func genRIDs(r *vgen.Rng, n int, shape int) []string {
 }
 
 func gen(r *vgen.Rng, tier string) []Case {
+	out := genCases(r, tier)
+	prefetch(out)
+	return out
+}
+
+func genCases(r *vgen.Rng, tier string) []Case {
 	var out []Case
 	npairs, ncredit, nnonce, nsess, nbexec := 90, 120, 40, 36, 60
 	nsessf, nsubf, nbexecf := 24, 10, 16
 	nretry, nconc := 24, 12
+	nsessh, nsubh, nbexech := 8, 5, 6
 	if tier == "thorough" {
+		nsessh, nsubh, nbexech = 150, 60, 100
 		npairs, ncredit, nnonce, nsess, nbexec = 1500, 1200, 400, 400, 1000
 		nsessf, nsubf, nbexecf = 300, 100, 200
 		nretry, nconc = 300, 90
@@ -596,7 +691,7 @@ func gen(r *vgen.Rng, tier string) []Case {
 			}
 			ps[j].Executed = r.Chance(1, 7)
 		}
-		out = append(out, Case{Type: "sessf", Mid: vgen.Pick(r, mids), Cap: cap, Tg: 100, Props: ps, Masks: faultMasks(n)})
+		out = append(out, Case{Type: "sessf", Mid: vgen.Pick(r, mids), Cap: cap, Tg: 100, Props: ps, Masks: faultMasks(n), Lat: latScripts(r, n)})
 	}
 	for i := 0; i < nsubf; i++ {
 		n := r.Range(1, 5)
@@ -604,7 +699,14 @@ func gen(r *vgen.Rng, tier string) []Case {
 		for j := range ps {
 			ps[j].Executed = r.Chance(1, 5)
 		}
-		out = append(out, Case{Type: "subf", Mid: vgen.Pick(r, mids), Props: ps, Masks: faultMasks(n)})
+		if i%2 == 0 && n < 3 {
+			n = r.Range(3, 5) // several pending proposals: their order in the signed list is what latency could change
+			ps = make([]Prop, n)
+			for j := range ps {
+				ps[j].Executed = r.Chance(1, 8)
+			}
+		}
+		out = append(out, Case{Type: "subf", Mid: vgen.Pick(r, mids), Props: ps, Masks: faultMasks(n), Lat: latScripts(r, n)})
 	}
 	for i := 0; i < nbexecf; i++ {
 		nres := r.Range(2, 3)
@@ -620,7 +722,18 @@ func gen(r *vgen.Rng, tier string) []Case {
 		}
 		r.Shuffle(len(c.BProps), func(a, b int) { c.BProps[a], c.BProps[b] = c.BProps[b], c.BProps[a] })
 		c.Masks = faultMasks(n)
+		c.Lat = latScripts(r, n)
 		out = append(out, c)
+	}
+	// long-lived executor objects: the same delivery again (hist.go)
+	for i := 0; i < nsessh; i++ {
+		out = append(out, genHist(r, "sessh", mids))
+	}
+	for i := 0; i < nsubh; i++ {
+		out = append(out, genHist(r, "subh", mids))
+	}
+	for i := 0; i < nbexech; i++ {
+		out = append(out, genHist(r, "bexech", mids))
 	}
 	// retry event handlers: several retry events per range, 48 repetitions each
 	for i := 0; i < nretry; i++ {
@@ -736,6 +849,8 @@ func coq(c Case, o Obs) string {
 		return coqRetry(c, o)
 	case "conc":
 		return coqConc(c, o)
+	case "sessh", "subh", "bexech":
+		return coqHist(c, o)
 	case "sess":
 		mem := func(m []uint64) string { return vgen.ListOf(m, vgen.N) }
 		return "Sess " + vgen.Str(c.Mid) + " " + vgen.ListOf(o.Batches, mem) + "\n    " +
@@ -884,6 +999,10 @@ func main() {
 				return len(o.FRuns) > 1 && len(o.FRuns[0]) >= 1
 			case "bexecf":
 				return len(o.FBRuns) > 1 && len(o.FBRuns[0]) >= 2
+			case "sessh", "subh":
+				return len(o.HFresh) > 0 && len(o.HFresh[0]) >= 1 && len(o.HSteps) >= 3
+			case "bexech":
+				return len(o.HBFresh) > 0 && len(o.HBFresh[0]) >= 1 && len(o.HBSteps) >= 3
 			case "retry":
 				// two live deposits of different retry events for one destination
 				first := map[uint8]int{}
@@ -911,6 +1030,6 @@ func main() {
 			}
 			return true
 		},
-		Rule: "pairs of independently configured real listener stacks (EVM/Substrate/BTC; intervals 1..7; starts 0..60 and large, plus starts 1, i-1, 2i-1 for every interval i against a relayer started at 0; stored cursor absent/behind/ahead; latest/fresh flags; faults; 0..2 crashes each) over one fake chain with 0..2 deposits per block to 3 destinations; Bitcoin ProcessDeposits x64 on blocks of 1..4 transactions paying 0..3 of 2..4 resources whose 32-byte ids differ in the first byte / are left-padded small numbers / share a 31-byte prefix / differ in one inner byte / share a prefix of 1..31 bytes / are random; CalculateNonce on random (height, tx hash); the real EVM Executor.Execute (real tss.Coordinator, fake host and communication) on deliveries of 0..7 proposals forming 0..4 batches, 3 gated schedules (default and GOMAXPROCS(1)) + 2 run-ahead repetitions each; the real Bitcoin Executor.Execute on deliveries of 1..8 proposals over 1..4 resources, 4 schedules (GOMAXPROCS(1) run-ahead and default) each; faulty-relayer cases: one delivery (EVM 3..7 proposals in 1..4 batches, Substrate 1..5, Bitcoin 2..6 over 2..3 resources; some already executed) executed by the real Executor.Execute of a fault-free relayer and of one relayer per proposal position whose executed-status look-up fails there, plus one with two failing look-ups; retry cases: the real EVM RetryV1EventHandler (real events.Listener, receipts of the retried transactions) and the real Substrate RetryEventHandler on one range of 2..6 retry events naming different transactions / blocks (one in eight cases one of them twice) with 1..3 deposits each to 1..3 destinations, at least two events with a live deposit for the same destination, some deposits already executed (EVM), 48 repetitions on one long-lived handler object; conc cases: ONE real deposit event handler per chain kind and the real RetryMessageHandler of that chain's executor package built over it serve 4..7 calls - ProcessDeposits on different cells / blocks and retry messages for (block, destination) - over a chain of 4..6 cells with 1..3 deposits per block (Bitcoin: 14..24 transactions per block), first one after the other (3 times), then all at once in goroutines released together under GOMAXPROCS(1) and the default with fakes that yield at every node read and every HandleDeposit (2 rounds each) and free-running with every call repeated 10 times, in a child process; distinct = distinct input JSON; non-trivial = both relayers emitted message groups / a transaction paying at least two resources / any nonce case / a delivery of at least two signed batches / a Bitcoin delivery concerning at least two resources / a faulty-relayer case whose fault-free relayer starts at least two sessions (Substrate: one) / a retry case with live deposits of two different retry events for one destination and at least 32 repetitions / a concurrent case of at least 3 calls and 8 runs",
+		Rule: "pairs of independently configured real listener stacks (EVM/Substrate/BTC; intervals 1..7; starts 0..60 and large, plus starts 1, i-1, 2i-1 for every interval i against a relayer started at 0; stored cursor absent/behind/ahead; latest/fresh flags; faults; 0..2 crashes each) over one fake chain with 0..2 deposits per block to 3 destinations; Bitcoin ProcessDeposits x64 on blocks of 1..4 transactions paying 0..3 of 2..4 resources whose 32-byte ids differ in the first byte / are left-padded small numbers / share a 31-byte prefix / differ in one inner byte / share a prefix of 1..31 bytes / are random; CalculateNonce on random (height, tx hash); the real EVM Executor.Execute (real tss.Coordinator, fake host and communication) on deliveries of 0..7 proposals forming 0..4 batches, 3 gated schedules (default and GOMAXPROCS(1)) + 2 run-ahead repetitions each; the real Bitcoin Executor.Execute on deliveries of 1..8 proposals over 1..4 resources, 4 schedules (GOMAXPROCS(1) run-ahead and default) each; faulty-relayer cases: one delivery (EVM 3..7 proposals in 1..4 batches, Substrate 1..5, Bitcoin 2..6 over 2..3 resources; some already executed) executed by the real Executor.Execute of a fault-free relayer and of one relayer per proposal position whose executed-status look-up fails there, plus one with two failing look-ups, plus two fault-free relayers whose node answers the look-ups with scripted latencies (completion order reverse, and rotated or random); history cases: one long-lived real Executor per chain kind goes through a history of 3..7 deliveries (the main delivery 2..4 times, a later state of it and the same proposals under another message id in between) and every delivery is executed once on a new executor; retry cases: the real EVM RetryV1EventHandler (real events.Listener, receipts of the retried transactions) and the real Substrate RetryEventHandler on one range of 2..6 retry events naming different transactions / blocks (one in eight cases one of them twice) with 1..3 deposits each to 1..3 destinations, at least two events with a live deposit for the same destination, some deposits already executed (EVM), 46 repetitions on one long-lived handler object (the neighbouring range in between every fourth time) and 2 on new objects; conc cases: ONE real deposit event handler per chain kind and the real RetryMessageHandler of that chain's executor package built over it serve 4..7 calls - ProcessDeposits on different cells / blocks and retry messages for (block, destination) - over a chain of 4..6 cells with 1..3 deposits per block (Bitcoin: 14..24 transactions per block), first one after the other (3 times, once in the opposite order, once with new objects per call), then all at once in goroutines released together under GOMAXPROCS(1) and the default with fakes that yield at every node read and every HandleDeposit (2 rounds each) and free-running with every call repeated 10 times, in a child process; distinct = distinct input JSON; non-trivial = both relayers emitted message groups / a transaction paying at least two resources / any nonce case / a delivery of at least two signed batches / a Bitcoin delivery concerning at least two resources / a faulty-relayer case whose fault-free relayer starts at least two sessions (Substrate: one) / a history case of at least 3 steps whose main delivery starts a session / a retry case with live deposits of two different retry events for one destination and at least 32 repetitions / a concurrent case of at least 3 calls and 8 runs",
 	})
 }
